@@ -70,13 +70,15 @@ func (s *SimpleAuthCtx) check(streamName string, urlParam string) error {
 	if v == "" {
 		return base.ErrSimpleAuthParamNotFound
 	}
-	v = strings.ToLower(v)
 
 	// 注意，只有DangerousLalSecret配置了值，才验证参数是否和DangerousLalSecret相等
+	// DangerousLalSecret is an arbitrary configured string: compare it as it is, before the value is
+	// lower-cased for the comparison with the (lower-case hex) md5 secret
 	if len(s.config.DangerousLalSecret) != 0 && v == s.config.DangerousLalSecret {
 		return nil
 	}
 
+	v = strings.ToLower(v)
 	se := SimpleAuthCalcSecret(s.config.Key, streamName)
 	if v == se {
 		return nil
